@@ -363,6 +363,9 @@ void requestTail() { if (!g.in_run || g.tail) return; enterTail(); if (g.cur) dr
 // called when cur cannot continue (blocked or finished)
 static void scheduleAway() {
   if (g.tail_requested && !g.tail) enterTail();
+  /* budgets are also enforced here: a run whose tasks all block before their next slow-path check would otherwise never end */
+  if (!g.tail && g.steps >= g.cfg.step_budget) { g.budget_exhausted = true; enterTail(); }
+  if (g.tail && g.steps >= g.tail_limit) { g.ending = true; g.res->budget_exhausted = true; switchTo(0); return; }
   int next = pickNext();
   if (!next) { g.quiesced = true; switchTo(0); return; }
   switchTo(next);
